@@ -45,16 +45,18 @@ theorem step_refines (s : FileSt) (op : FOp) (hs : Inv s) : stepC s op = stepS s
       · have hc' : h.closed = false := by simpa using hc
         obtain ⟨cur, hcur⟩ : ∃ cur : Nat, h.pos = cur := ⟨h.pos.toNat, by omega⟩
         by_cases hin : (cur ≥ s.data.length ∧ (len > 0 ∨ cur > s.data.length))
-        · have c : (h.pos ≥ (s.data.length : Int) ∧ (len > 0 ∨ h.pos > (s.data.length : Int))) := by omega
-          simp only [hc', Bool.false_eq_true, if_false, c, and_self, if_true]
+        · simp only [hc', Bool.false_eq_true, if_false]
           unfold readC
           simp only [hc', Bool.false_eq_true, if_false]
           by_cases c1 : len > 0 ∧ h.pos = (s.data.length : Int)
-          · simp [c1, hsame]
+          · have c0 : ¬ (h.pos > (s.data.length : Int)) := by omega
+            have c1' : h.pos = (s.data.length : Int) ∧ len > 0 := ⟨c1.2, c1.1⟩
+            simp [c1, c0, c1', hsame]
           · have c2 : h.pos > (s.data.length : Int) := by omega
             simp [c1, c2, hsame]
-        · have c : ¬ (h.pos ≥ (s.data.length : Int) ∧ (len > 0 ∨ h.pos > (s.data.length : Int))) := by omega
-          simp only [hc', Bool.false_eq_true, if_false, c]
+        · have ca : ¬ (h.pos > (s.data.length : Int)) := by omega
+          have cb : ¬ (h.pos = (s.data.length : Int) ∧ len > 0) := by omega
+          simp only [hc', Bool.false_eq_true, if_false, ca, cb]
           rw [readC_eq s.data h len cur hcur hc' hin]
           have : h.pos.toNat = cur := by omega
           simp [this, hc']
@@ -84,7 +86,8 @@ theorem step_refines (s : FileSt) (op : FOp) (hs : Inv s) : stepC s op = stepS s
             simp only [hc', Bool.false_eq_true, if_false, Int.toNat_natCast, hr']
             by_cases c1 : len > 0 ∧ (cur : Int) = (s.data.length : Int)
             · have : 0 < len := c1.1
-              simp [c1, hsame, this]
+              have c0 : ¬ ((cur : Int) > (s.data.length : Int)) := by omega
+              simp [c1, c0, hsame, this]
             · have c2 : (cur : Int) > (s.data.length : Int) := by omega
               simp [c1, c2, hsame]
           · rw [readC_eq s.data { h with pos := (cur : Int) } len cur rfl hc' hin]
@@ -183,11 +186,11 @@ theorem stepS_inv (s : FileSt) (op : FOp) (hs : Inv s) : Inv (stepS s op).1 := b
     | none => exact hs
     | some h =>
       have hp := hs h (List.mem_of_getElem? hi)
-      simp only; split
-      · exact hs
-      · split
-        · exact hs
-        · exact inv_setH _ _ _ hs (by simp; omega)
+      simp only
+      repeat' split
+      all_goals first
+        | exact hs
+        | exact inv_setH _ _ _ hs (by simp only; omega)
   | readAt i len off =>
     simp only [stepS]
     cases hi : s.hs[i]? with
@@ -345,16 +348,21 @@ theorem positional_keeps_offset (s : FileSt) (i len : Nat) (b : Bytes) (off : In
       repeat' split
       all_goals rfl
 
-/-- a short positional read reports end of file -/
+/-- a short positional read reports end of file (io.EOF, or io.ErrUnexpectedEOF when the offset
+    lies strictly beyond the end) -/
 theorem short_readAt_reports_eof (s : FileSt) (i len : Nat) (off : Int) (h : Handle) (hs : Inv s)
     (hi : s.hs[i]? = some h) (hc : h.closed = false) (ho : 0 ≤ off) (r : Bytes) (e : Option FErr)
-    (hr : (stepC s (.readAt i len off)).2 = .bytes r e) (hshort : r.length < len) : e = some .eof := by
+    (hr : (stepC s (.readAt i len off)).2 = .bytes r e) (hshort : r.length < len) :
+    e = some .eof ∨ e = some .ueof := by
   rw [step_refines _ _ hs] at hr
   simp only [stepS, hi, hc, Bool.false_eq_true, if_false, show ¬ off < 0 by omega] at hr
   injection hr with h1 h2
   subst h1
-  simp [hshort] at h2
-  exact h2.symm
+  simp only [hshort, if_true] at h2
+  rw [← h2]
+  split
+  · right; rfl
+  · left; rfl
 
 /-- a read-only or closed handle never changes the data -/
 theorem ro_or_closed_inert (s : FileSt) (op : FOp) (i : Nat) (h : Handle) (hs : Inv s)
